@@ -180,7 +180,7 @@ def suite_history(ctx, case):
                          'the new PRISM object is not wired from the System\'s current state: ' + whyw, key='C16:wiring')
                 assert drv.ask('w.prism %d' % (len(prisms) - 1)) == 'ok'
                 line = G.wiring_tok(p)
-                ctx.corr('history', sub, drv.ask('prism.wiring'), line, rtol=1e-11, atols=G.group_atols(line, 1e-12), what='wiring of the new PRISM object')
+                ctx.corr('history', sub, drv.ask('prism.wiring'), line, rtol=1e-11, atols=G.wiring_atols(line, sd, p.sys.domain.k), what='wiring of the new PRISM object')
                 if op[0] == 'solve' and p.minimize_result.success:
                     with warnings.catch_warnings():
                         warnings.simplefilter('ignore')
